@@ -16,7 +16,62 @@ use crate::model::{Model, Pos};
 use crate::prng::{hash_bytes, Rng};
 use crate::verdict::Ctx;
 
-type Cur<'a> = ReaderCursor<Cursor<&'a [u8]>>;
+/// Source of the cursors under test. `Shared`: clones share one file position, like `&File`
+/// (a cursor must then never assume the position it left behind is still there).
+#[derive(Clone)]
+pub struct Src<'a> {
+    data: &'a [u8],
+    own: u64,
+    shared: Option<std::rc::Rc<std::cell::Cell<u64>>>,
+}
+
+impl<'a> Src<'a> {
+    fn new(data: &'a [u8], shared: bool) -> Src<'a> {
+        Src { data, own: 0, shared: if shared { Some(std::rc::Rc::new(std::cell::Cell::new(0))) } else { None } }
+    }
+    fn pos(&self) -> u64 {
+        self.shared.as_ref().map(|c| c.get()).unwrap_or(self.own)
+    }
+    fn set_pos(&mut self, p: u64) {
+        match &self.shared {
+            Some(c) => c.set(p),
+            None => self.own = p,
+        }
+    }
+}
+
+impl<'a> std::io::Read for Src<'a> {
+    fn read(&mut self, buf: &mut [u8]) -> std::io::Result<usize> {
+        let start = self.pos().min(self.data.len() as u64) as usize;
+        let n = buf.len().min(self.data.len() - start);
+        buf[..n].copy_from_slice(&self.data[start..start + n]);
+        let p = self.pos();
+        self.set_pos(p + n as u64);
+        Ok(n)
+    }
+}
+
+impl<'a> std::io::Seek for Src<'a> {
+    fn seek(&mut self, from: std::io::SeekFrom) -> std::io::Result<u64> {
+        let (base, off) = match from {
+            std::io::SeekFrom::Start(n) => {
+                self.set_pos(n);
+                return Ok(n);
+            }
+            std::io::SeekFrom::End(n) => (self.data.len() as u64, n),
+            std::io::SeekFrom::Current(n) => (self.pos(), n),
+        };
+        match base.checked_add_signed(off) {
+            Some(n) => {
+                self.set_pos(n);
+                Ok(n)
+            }
+            None => Err(std::io::Error::new(std::io::ErrorKind::InvalidInput, "invalid seek to a negative or overflowing position")),
+        }
+    }
+}
+
+type Cur<'a> = ReaderCursor<Src<'a>>;
 
 struct Slot<'a> {
     c: Cur<'a>,
@@ -39,8 +94,11 @@ pub struct Exec<'a, 'b> {
 }
 
 impl<'a, 'b> Exec<'a, 'b> {
-    fn new(ctx: &'b Ctx, b: &'b Built<'b>, entries: &'a [crate::cur::Entry], bytes: &'a [u8], layout: &'b Layout, stream: &'b str) -> Option<Exec<'a, 'b>> {
-        let c = open_cursor(Cursor::new(bytes)).ok()?;
+    fn new(ctx: &'b Ctx, b: &'b Built<'b>, entries: &'a [crate::cur::Entry], bytes: &'a [u8], layout: &'b Layout, stream: &'b str, shared: bool) -> Option<Exec<'a, 'b>> {
+        let c = open_cursor(Src::new(bytes, shared)).ok()?;
+        if shared {
+            ctx.count("histories_on_a_shared_position_source", 1);
+        }
         Some(Exec {
             ctx,
             b,
@@ -143,14 +201,15 @@ impl<'a, 'b> Exec<'a, 'b> {
 
 /// Random history with clones.
 fn random_history(ctx: &Ctx, b: &Built, layout: &Layout, rng: &mut Rng, len: usize, states: &Mutex<HashSet<u64>>, hashes: &std::collections::HashMap<u64, (usize, usize)>) -> bool {
-    let Some(mut ex) = Exec::new(ctx, b, &b.entries, &b.bytes, layout, b.stream) else { return false };
+    let shared = rng.chance(1, 3);
+    let Some(mut ex) = Exec::new(ctx, b, &b.entries, &b.bytes, layout, b.stream, shared) else { return false };
     let mut gens: Vec<HistGen> = vec![HistGen::new(&b.entries, layout)];
     for _ in 0..len {
         if ex.failed {
             break;
         }
         let slot = if ex.slots.len() > 1 && rng.chance(1, 4) { rng.below(ex.slots.len()) } else { ex.slots.len() - 1 };
-        if rng.chance(1, 40) && ex.slots.len() < 3 {
+        if rng.chance(if shared { 3 } else { 1 }, 40) && ex.slots.len() < 3 {
             ex.clone_slot(slot);
             gens.push(HistGen::new(&b.entries, layout));
             continue;
@@ -266,7 +325,7 @@ fn structured_histories(ctx: &Ctx, b: &Built, layout: &Layout, rng: &mut Rng, ma
                 }
             }
             for x in xs {
-                let Some(mut ex) = Exec::new(ctx, b, &b.entries, &b.bytes, layout, b.stream) else { return any };
+                let Some(mut ex) = Exec::new(ctx, b, &b.entries, &b.bytes, layout, b.stream, false) else { return any };
                 ex.step(0, &warm);
                 ex.step(0, &warm);
                 let rel = if mirrored { Op::Prev } else { Op::Next };
